@@ -277,7 +277,8 @@ def run_parallel_scenario(job):
     k = x.categorical.padded_array
     bad = jnp.any(jnp.isnan(c)) | jnp.any(k[..., :1] < 0) | jnp.any(k[..., :1] >= ncat)
     seen_bad.append(bool(bad))
-    member = jnp.nan_to_num(1.0 - jnp.abs(c[..., 0] - 0.3) + 0.1 * k[..., 0])
+    # "for any score function": this one LIKES padding rows (NaN features), so a padding row that wrongly entered the pool wins
+    member = jnp.where(jnp.isnan(c[..., 0]), 5.0, 1.0 - jnp.abs(jnp.nan_to_num(c[..., 0]) - 0.3) + 0.1 * k[..., 0])
     return jnp.sum(member, axis=-1) if member.ndim == 2 else member
 
   rec = {'scenario': sc, 'refused': False}
